@@ -354,3 +354,19 @@ func (w *World) GlobalNamed(pkg, name, typ string) string {
 	}
 	return found
 }
+
+// NamedType finds a named type of a repo package by short package name and type name.
+func (w *World) NamedType(pkgShort, name string) *types.Named {
+	for _, p := range w.SSA {
+		pp := strings.TrimPrefix(strings.TrimPrefix(p.Pkg.Path(), w.ModPath), "/")
+		if pp != pkgShort {
+			continue
+		}
+		if o := p.Pkg.Scope().Lookup(name); o != nil {
+			if n, ok := o.Type().(*types.Named); ok {
+				return n
+			}
+		}
+	}
+	return nil
+}
